@@ -38,8 +38,12 @@
 (* and a string never get compared by TLC.                                 *)
 (* Output is a sequence of tokens <<name, n, ctx, arg, t>>: section `name`  *)
 (* of template t, n-th execution of its body, context value and argument   *)
-(* it saw; filter                                                          *)
-(* and buffer-filter applications are bracket tokens around the content.   *)
+(* it saw; filter and buffer-filter applications are bracket tokens around *)
+(* the content.                                                            *)
+(* Worlds are assumed well-formed (the generator guarantees it): calls     *)
+(* across templates go to higher-numbered templates, and a section never   *)
+(* reaches, through calls, a section with a possibly equal key in the same *)
+(* namespace (a cached callable invoking itself under its own key).        *)
 (*                                                                         *)
 (* The model follows the CODE where `AsCoded` names a deviation:           *)
 (*   "regions-by-invalidate"  invalidate_* freezes the _def_regions entry  *)
